@@ -92,6 +92,11 @@ theorem range_init_ok (u : List Char) (rs : List (Int × Option Int)) (h : AllVa
     Gen.PyFns_Range.range_init u rs = .ok (u, rs) := by
   rw [range_init_eq, (all_validB_iff rs).mpr h]; rfl
 
+example : AllValid [(0, some 2), (5, none), (-3, none)] := by
+  intro p hp
+  simp only [List.mem_cons, List.not_mem_nil, or_false] at hp
+  rcases hp with rfl | rfl | rfl <;> simp [ValidPair]
+
 /-- The `for item in rng.split(",")` loop of `parse_range_header`, as translated from the current
 source (strip, the `-` tests, the suffix / `first-last` / `first-` forms with their `_plain_int`
 calls and `try … except ValueError: return None`, the ordering checks against `last_end`, the append),
